@@ -15,6 +15,11 @@ Four operation families share the machinery:
          of the parameters (e.g. a cache of the A/B matrices that forgets r0)
   frp    the same for the Fried variant
   ftp    seeded FFT screens (plain and sub-harmonic) under single-parameter variations
+  alias  a small alphabet (one seeded screen of each kind, seeded and unseeded FFT calls, an unseeded screen,
+         a reset of the global RNG) explored with PROCESS snapshots: the state reached by a history is the
+         process that executed it (fork), so links between live objects and state hidden in the library's
+         modules are preserved exactly; the other families use copy.deepcopy snapshots, which are much faster
+         but cut such links
 """
 import numpy
 
@@ -77,6 +82,9 @@ SLOTS = {
         "frD": ("fr", _var(FRB, ps=0.2), 1), "frE": ("fr", _var(FRB, nx=5), 1), "frF": ("fr", _var(FRB, sd=2), 1),
     },
     "ftp": {},
+    # explored with process snapshots (fork), see _hist: the operations most likely to be linked through state
+    # the library keeps outside the objects (one seeded screen of each kind, unseeded screens and calls)
+    "alias": {"vk1": ("vk", VKB, 1), "fr1": ("fr", FRB, 1), "vkN": ("vk", VKB, None)},
 }
 # function ops -> (function, params, seed spec)
 FUNCS = {
@@ -84,6 +92,7 @@ FUNCS = {
              "ftN": ("ft", FTB, None), "ftshN": ("ftsh", FTB, None)},
     "vkp": {}, "frp": {},
     "ftp": {},
+    "alias": {"ft1": ("ft", FTB, 1), "ftsh1": ("ftsh", FTB, 1), "ftN": ("ft", FTB, None), "ftshN": ("ftsh", FTB, None)},
 }
 for _f in ("ft", "ftsh"):
     for _name, _p in (("A", FTB), ("B", _var(FTB, r0=0.1)), ("C", _var(FTB, delta=0.2)), ("D", _var(FTB, L0=10.0)),
@@ -96,6 +105,8 @@ def _depth(tier, family):
     if family == "main":
         return 4 if tier == "quick" else 6
     if family == "ftp":
+        return 3 if tier == "quick" else 4
+    if family == "alias":
         return 3 if tier == "quick" else 4
     return 4 if tier == "quick" else 5
 
@@ -112,6 +123,8 @@ def _ops(family):
     ops = ["new_" + s for s in SLOTS[family]] + ["row_" + s for s in SLOTS[family]] + list(FUNCS[family])
     if family == "main":
         ops += NOISE_OPS
+    if family == "alias":
+        ops += ["np_seed0"]
     return ops
 
 
@@ -175,12 +188,28 @@ def setup(tier):
                 continue
             jobs.append((1, family, op, 0))
             keys.append((family, op))
+    for slot, (kind, prm, n_rows) in LONG.items():
+        jobs.append((2, "long", slot, n_rows))
+        keys.append(("long", slot))
     res = isolated_map(_table_job, jobs)
     _TABLE = dict(zip(keys, res))
 
 
 def _table_job(which, family, name, depth):
+    if which == 2:
+        kind, prm, n_rows = LONG[name]
+        obj = _new(kind, prm, 1)
+        out = [_bytes(obj.scrn)]
+        for _ in range(n_rows):
+            obj.add_row()
+            out.append(_bytes(obj.scrn))
+        return out
     return _table_slot(family, name, depth) if which == 0 else _table_func(family, name)
+
+
+# long extrusions: several times the working-array length (anything buffered per block of rows shows up)
+LONG = {"vk": ("vk", VKB, 3 * 4 + 3), "vk_big": ("vk", _var(VKB, nx=7), 3 * 7 + 2), "fr": ("fr", FRB, 3 * 12 + 3),
+        "fr_sd1": ("fr", _var(FRB, sd=1), 4 * 3 + 2)}
 
 
 def cases(tier):
@@ -193,6 +222,8 @@ def cases(tier):
     for kind in ("ft", "ftsh", "vk", "fried"):
         yield Case("distinct_seeds:%s" % kind, {"kind": "distinct", "what": kind})
     yield Case("unseeded_differ", {"kind": "unseeded"})
+    for slot in LONG:
+        yield Case("long_rows:%s" % slot, {"kind": "long", "slot": slot})
 
 
 class _W(ss.World):
@@ -219,6 +250,8 @@ def evaluate(p):
         return _hist(p)
     if p["kind"] == "distinct":
         return _distinct(p["what"])
+    if p["kind"] == "long":
+        return _long(p["slot"])
     return _unseeded()
 
 
@@ -258,6 +291,11 @@ def _hist(p):
     o = Out()
     depth, family = p["depth"], p["family"]
     table = _TABLE
+    # compile the library's numba kernels once in this process: forked children inherit the compiled code, a
+    # kernel first used inside a child would be compiled again in every child (the calls are part of the history
+    # prefix of every explored history: a screen of another geometry and one optimal grouping)
+    if family == "alias":
+        _new("vk", _var(VKB, nx=3), 99)
     numpy.random.seed(12345)            # owned: the initial global state is part of the input
     world = _W({"rows": {}}, modules=(ips, phasescreen, turb))
     world.family = family
@@ -278,7 +316,7 @@ def _hist(p):
             out.append(op)
         return out
 
-    def verify(hist, op, pre, w, result, loop):
+    def verify(hist, op, pre, w, result, loop, o=o):
         sub = "h=%s" % ",".join(hist + (op,))
         rows = w.objects["rows"]
         for slot in seeded_slots:
@@ -298,24 +336,76 @@ def _hist(p):
         others = [k for k in ss.changed(pre, post)
                   if k.startswith("obj:") and k != "obj:" + str(touched)]
         o.check("other_objects_untouched", not others, sub=sub, detail=others)
-        if len(set(hist + (op,))) > 1:
-            interleaved["n"] += 1
 
+    # Snapshots are OS processes (fork): the state reached by a history is the process that executed it, so
+    # aliasing between a screen's generator and anything the library keeps in its modules survives - a deepcopy
+    # snapshot would silently cut such links (a seeded 'module-level current generator' was missed that way).
+    import shutil
+    import tempfile
     first = p["first"]
     pre = world.components()
     res = apply_op(world, first)
     verify((), first, pre, world, res, False)
-    st = ss.bfs(world, alphabet, apply_op,
-                lambda hist, op, pre, w, result, loop: verify((first,) + hist, op, pre, w, result, loop),
-                depth - 1)
-    o.stat("states", st["states"] + 1)
+    if family != "alias":
+        # deepcopy snapshots: fast, complete for state held in the objects, the global RNG and module globals
+        def on_t(hist, op, pre, w, result, loop):
+            verify((first,) + hist, op, pre, w, result, loop)
+            if len(set((first,) + hist + (op,))) > 1:
+                o.stat("nontrivial", 1)
+        st = ss.bfs(world, alphabet, apply_op, on_t, depth - 1)
+        o.stat("states", st["states"] + 1)
+        o.stat("transitions", st["transitions"] + 1)
+        o.stat("self_loops", st["self_loops"])
+        o.stat("traces_validated_against_impl", st["transitions"] + 1)
+        o.outcome(sorted((str(k), digest(v)) for k, v in table.items() if k[0] == family))
+        return o
+    seen_dir = tempfile.mkdtemp(prefix="c06_seen_")
+    try:
+        ss._claim(seen_dir, world.key(), 1)
+
+        def check(hist, op, pre, w, result, loop, out):
+            verify(hist, op, pre, w, result, loop, o=out)
+            if len(set(hist + (op,))) > 1:
+                out.stat("nontrivial", 1)
+        sub, st = ss.fork_search(world, alphabet, apply_op, check, depth, seen_dir, hist=(first,))
+    finally:
+        shutil.rmtree(seen_dir, ignore_errors=True)
+    o.merge(sub)
+    o.stat("process_snapshot_transitions", st["transitions"])
+    o.stat("states", st["states"] + 2)
     o.stat("transitions", st["transitions"] + 1)
     o.stat("self_loops", st["self_loops"])
     o.stat("traces_validated_against_impl", st["transitions"] + 1)
-    o.stat("nontrivial", interleaved["n"])
-    if st["capped"]:
-        o.stat("caps_hit", 1)
     o.outcome(sorted((str(k), digest(v)) for k, v in table.items() if k[0] == family))
+    return o
+
+
+def _long(slot):
+    """every row of a long extrusion (several working-array lengths) equals the pristine reference, with noise
+    operations (global RNG, unseeded calls, other screens) interleaved between the rows"""
+    from aotools.turbulence import phasescreen as ps
+    o = Out()
+    kind, prm, n_rows = LONG[slot]
+    table = _TABLE[("long", slot)]
+    ft = (FTB["r0"], FTB["N"], FTB["delta"], FTB["L0"], FTB["l0"])
+    for mode in ("plain", "interleaved"):
+        obj = _new(kind, prm, 1)
+        o.check("long_extrusion_equals_isolated_reference", _bytes(obj.scrn) == table[0], sub="%s:row=0" % mode)
+        for r in range(1, n_rows + 1):
+            if mode == "interleaved":
+                which = r % 4
+                if which == 0:
+                    numpy.random.seed(r)
+                elif which == 1:
+                    ps.ft_phase_screen(*ft)
+                elif which == 2:
+                    _new("vk" if kind == "fr" else "fr", FRB if kind == "vk" else VKB, 1).add_row()
+                else:
+                    ps.ft_sh_phase_screen(*ft, seed=r)
+            obj.add_row()
+            o.check("long_extrusion_equals_isolated_reference", _bytes(obj.scrn) == table[r], sub="%s:row=%d" % (mode, r))
+        o.stat("lib_calls", n_rows + 1)
+    o.stat("nontrivial", n_rows)
     return o
 
 
@@ -355,7 +445,23 @@ def _distinct(what):
             s.add_row()
             b = s.scrn
         o.check("same_seed_same_bytes", _bytes(a) == _bytes(b), sub="%s:seed=%d" % (what, seed))
-    o.stat("lib_calls", 2 * (32 + len(BIG_SEEDS)))
+    # every kind of seed numpy.random.default_rng accepts (numpy integer scalars, sequences, arrays): the same
+    # seed object twice gives the same bytes
+    def make(seed):
+        if what == "ft":
+            return ps.ft_phase_screen(*ft, seed=seed)
+        if what == "ftsh":
+            return ps.ft_sh_phase_screen(*ft, seed=seed)
+        s_ = _new("vk" if what == "vk" else "fr", VKB if what == "vk" else FRB, seed)
+        s_.add_row()
+        return s_.scrn
+    specials = {"np.int64(5)": lambda: numpy.int64(5), "np.int32(5)": lambda: numpy.int32(5),
+                "np.uint8(5)": lambda: numpy.uint8(5), "list[3,4]": lambda: [3, 4], "tuple(1,2,3)": lambda: (1, 2, 3),
+                "array[7,8]": lambda: numpy.array([7, 8]), "int 0": lambda: 0, "np.int64(0)": lambda: numpy.int64(0)}
+    for name, mk in specials.items():
+        a, b = make(mk()), make(mk())
+        o.check("same_seed_same_bytes", _bytes(a) == _bytes(b), sub="%s:seed=%s" % (what, name))
+    o.stat("lib_calls", 2 * (32 + len(BIG_SEEDS)) + 2 * len(specials))
     return o
 
 
